@@ -11,6 +11,7 @@ Definition is_some_name (o : option name) : bool := match o with Some _ => true 
 
 Definition scan_param_gen (st_ : scan) (p : param) : scan :=
   let st_ := (if kind_eqb (pkind p) PosOrKw then (mkScan (sc_names st_ ++ [pname p]) (sc_defaults st_) (sc_kwonly st_) (sc_varargs st_) (sc_varkw st_)) else (if kind_eqb (pkind p) KwOnly then (let st_ := (mkScan (sc_names st_ ++ [pname p]) (sc_defaults st_) (sc_kwonly st_) (sc_varargs st_) (sc_varkw st_)) in mkScan (sc_names st_) (sc_defaults st_) (sc_kwonly st_ ++ [pname p]) (sc_varargs st_) (sc_varkw st_)) else (if kind_eqb (pkind p) VarPos then (mkScan (sc_names st_) (sc_defaults st_) (sc_kwonly st_) (Some (pname p)) (sc_varkw st_)) else (if kind_eqb (pkind p) VarKw then (mkScan (sc_names st_) (sc_defaults st_) (sc_kwonly st_) (sc_varargs st_) (Some (pname p))) else st_)))) in
+  let st_ := (match pdefault p with Some d_ => (mkScan (sc_names st_) (sc_defaults st_ ++ [d_]) (sc_kwonly st_) (sc_varargs st_) (sc_varkw st_)) | None => st_ end) in
   st_.
 
 Definition named_step_gen (args : list value) (kwargs : list (name * value)) (arg_kwonlyargs : list name)
